@@ -730,6 +730,12 @@ fn judge_binds(r: &DuoRun, led: &Ledger, ei: &EndInfo, o: &mut Outcome) {
                     o.violate("C15:unresolved-after-end", format!("bind request #{k} is still pending at quiescence although the requester's connection has ended ({})", ei.why[*from]));
                     continue;
                 }
+                // a request that has reached the peer endpoint while one of its application's calls
+                // to next_bind_request is waiting must have been handed to that call by quiescence
+                let consumed = wid.is_some_and(|w| l.evs.iter().any(|e| e.stage == Stage::Consumed && !e.injected && matches!(&*e.w, Wire::Frame(RFrame::Bind { id, host: h, .. }) if *id == w.0 && h == host)));
+                if !ended && !disabled && seen.is_empty() && consumed && led.bind.resp_waiting[to] > 0 {
+                    o.violate("C15:not-shown-to-waiting-application", format!("bind request #{k} has reached the peer endpoint and {} call(s) of its application to next_bind_request are waiting, yet the request was never handed to any of them", led.bind.resp_waiting[to]));
+                }
                 if !ended && (disabled || accepted_by_peer || refused_by_peer) {
                     o.violate("C15:unresolved", format!("bind request #{k} is still pending at quiescence although the peer {}", if disabled { "does not accept binds" } else if accepted_by_peer { "accepted it" } else { "rejected or dropped it" }));
                 }
